@@ -29,12 +29,24 @@ class Inst:
         return (self.maker, self.serial, tuple(d.desc() if isinstance(d, Inst) else repr(d) for d in self.deps))
 
 
-class A(Inst):
-    pass
+class OuterA:
+    class Item(Inst):
+        """Falsy by length (an empty collection-like service)."""
+        def __len__(self) -> int:
+            return 0
 
 
-class B(Inst):
-    pass
+class OuterB:
+    class Item(Inst):
+        """Falsy by __bool__."""
+        def __bool__(self) -> bool:
+            return False
+
+
+# A and B are nested classes that share their simple name (__name__ == 'Item'; only __qualname__ tells them apart),
+# and their instances are falsy: identity must not go by simple name, presence must not go by truthiness
+A = OuterA.Item
+B = OuterB.Item
 
 
 class G(Inst, Generic[T]):
